@@ -8,12 +8,15 @@ N1 == [rest |-> FALSE, items |-> <<Obj(<<"C">>, 4)>>]
 CH == [rest |-> FALSE, items |-> <<Obj(<<"D">>, 4), Obj(<<"F","#">>, 4)>>]
 RS == [rest |-> TRUE, items |-> <<>>]
 Quarter == [b |-> 4, d |-> 0, r |-> <<1, 1>>]
+Eighth == [b |-> 5, d |-> 0, r |-> <<1, 1>>]
 Sels(n) == {<<>>} \cup {<<i>> : i \in 0..(n - 1)} \cup {<<i, j>> : i \in 0..(n - 1), j \in 0..(n - 1)} 
 Acts(c) == {[op |-> "comp_add_track", instr |-> k] : k \in {"none", "piano"}} \cup {[op |-> "comp_plus_track", instr |-> "none"]} \cup
            {[op |-> "comp_select", sel |-> s] : s \in {x \in Sels(Len(c.tracks)) : Len(x) < 2 \/ x[1] < x[2]}} \cup
-           {[op |-> o, arg |-> a] : o \in {"comp_add_note", "comp_plus_note"}, a \in {N1, CH}}
+           {[op |-> o, arg |-> a] : o \in {"comp_add_note", "comp_plus_note"}, a \in {N1, CH}} \cup
+           {[op |-> "comp_direct", track |-> i, arg |-> N1] : i \in 1..Len(c.tracks)}
 Do(c, a) == CASE a.op \in {"comp_add_track", "comp_plus_track"} -> [tracks |-> Append(c.tracks, NewTrack(a.instr)), sel |-> <<Len(c.tracks)>>]
               [] a.op = "comp_select" -> [c EXCEPT !.sel = a.sel]
+              [] a.op = "comp_direct" -> [c EXCEPT !.tracks[a.track] = AddNotesT(@, ContentOf(a.arg), Ticks(Eighth))[1]]
               [] OTHER -> [c EXCEPT !.tracks = [i \in 1..Len(c.tracks) |->
                               IF \E j \in 1..Len(c.sel) : c.sel[j] + 1 = i
                               THEN AddNotesT(c.tracks[i], ContentOf(a.arg), Ticks(Quarter))[1] ELSE c.tracks[i]]]
@@ -22,5 +25,5 @@ Next == \E a \in Acts(comp) : /\ comp' = Do(comp, a) /\ Len(comp'.tracks) <= 3 /
                               /\ (Len(hist') = D => PrintT("@@" \o ToJson([acts |-> hist'])))
 Spec == Init /\ [][Next]_<<comp, hist>>
 \* a note reaches exactly the selected tracks: unselected tracks never change
-PropFrame == [][\A i \in 1..Len(comp.tracks) : (~\E j \in 1..Len(comp.sel) : comp.sel[j] + 1 = i) => comp'.tracks[i] = comp.tracks[i]]_<<comp, hist>>
+PropFrame == [][hist'[Len(hist')].op # "comp_direct" => \A i \in 1..Len(comp.tracks) : (~\E j \in 1..Len(comp.sel) : comp.sel[j] + 1 = i) => comp'.tracks[i] = comp.tracks[i]]_<<comp, hist>>
 =============================================================================
